@@ -860,6 +860,17 @@ class Explorer:
 
     def _fcmp(self, i, ev):
         a, b = ev(i.ops[0]), ev(i.ops[1])
+        # a NaN operand decides every comparison: ordered predicates are false, unordered ones true
+        for x in (a, b):
+            if x is not None and x[0] == "fp" and x[1] == frozenset(("nan",)):
+                p = i.pred
+                if p == "ord":
+                    return const(0, 1)
+                if p == "uno":
+                    return const(1, 1)
+                if p in ("true", "false"):
+                    return const(1 if p == "true" else 0, 1)
+                return const(1 if p[0] == "u" else 0, 1)
         if a is None or a[0] != "fp" or b is None or b[0] != "fp" or len(b[1]) != 1 or next(iter(b[1])) not in ("pinf", "ninf"):
             return full(1)
         sign = 1 if "pinf" in b[1] else -1
